@@ -477,7 +477,14 @@ class Alias(Profile):
                 if arr.dtype.kind == "f" and arr.size and arr.flags.writeable:
                     j = op["k"] % arr.size
                     pre = self.check_inputs_later(W, i)
-                    arr.flat[j] = arr.flat[j] + 0.0625
+                    nv = arr.flat[j] + 0.0625
+                    # stay inside the coordinate's standard range (a copy re-wraps out-of-range
+                    # longitudes, which is not an aliasing matter)
+                    if op["name"].endswith("_lon") and nv > 180.0:
+                        nv -= 0.125
+                    elif op["name"].endswith("_lat") and nv > 90.0:
+                        nv -= 0.125
+                    arr.flat[j] = nv
                     out = ("written", int(j))
                     # zero-copy construction may legitimately share this array with the caller's
                     # input; a write made by the caller is not the library's doing
